@@ -687,6 +687,12 @@ def simplify_if_control_flow(source: str) -> str:
             for body in bodies
         ]
 
+        used_names = {name.id for name in core.walk(root, ast.Name)} | {
+            arg.arg for arg in core.walk(root, ast.arg)
+        }
+        if any(f"var_{number + 1}" in used_names for number in range(len(something))):
+            continue  # The new variables would shadow existing ones
+
         additions = set()
         replacements = {}
         for new_variable_number, (names, indexes) in enumerate(something.items()):
